@@ -226,14 +226,58 @@ def check_synrule(ctx):
         seen[k] = r1
 
 
+def two_order_complete_family(quick):
+    """complete graphs whose bonds take two orders (order 1 on the edges of a small regular graph F, order 2 elsewhere)
+    with 0-3 hetero atoms: colour refinement cannot split the carbon cell, so the individualisation search and its
+    automorphism pruning do all the work."""
+    rel = lambda g: nx.relabel_nodes(g, {v: i + 1 for i, v in enumerate(g.nodes)})
+    fams = {"C6": rel(nx.cycle_graph(6)), "P6": rel(nx.path_graph(6)), "prism": rel(nx.circular_ladder_graph(3)),
+            "K33": rel(nx.complete_bipartite_graph(3, 3)), "2C3": rel(nx.disjoint_union(nx.cycle_graph(3), nx.cycle_graph(3))),
+            "3K2": rel(nx.disjoint_union_all([nx.path_graph(2)] * 3)), "C7": rel(nx.cycle_graph(7))}
+    if not quick:
+        fams.update({"C8": rel(nx.cycle_graph(8)), "cube": rel(nx.hypercube_graph(3)),
+                     "2C4": rel(nx.disjoint_union(nx.cycle_graph(4), nx.cycle_graph(4)))})
+    out = {}
+    for name, F in fams.items():
+        n = F.number_of_nodes()
+        hets = [(1,), (1, 2), (1, 3), (1, 4), (1, 2, 3), (1, 2, 4)] + ([()] if n <= 6 else [])
+        for het in hets:
+            G = nx.Graph()
+            for v in range(1, n + 1):
+                G.add_node(v, element="N" if v in het else "C", hcount=0, charge=0, aromatic=False, atom_map=v, neighbors=[])
+            for u, v in itertools.combinations(range(1, n + 1), 2):
+                G.add_edge(u, v, order=1.0 if F.has_edge(u, v) else 2.0, standard_order=0.0)
+            out[f"K{n}[{name}]/N@{','.join(map(str, het)) or '-'}"] = G
+    return out
+
+
 def run(ctx):
     rng = ctx.rng
     groups = {}
+    for t, (name, G) in enumerate(two_order_complete_family(ctx.quick).items()):
+        if ctx.mine(t) and not ctx.out_of_time(0.5):
+            nodes = sorted(G.nodes)
+            perms = [rng.sample(nodes, len(nodes)) for _ in range(40 if len(nodes) <= 6 else 12 if ctx.quick else 24)]
+            check_graph(ctx, G, "two-order complete graphs " + name, ("k2", name), groups, perms=perms, light=True)
+            ctx.count("two_order_complete_graphs_checked")
     # fixed probes computed by every shard (different hash seeds) -> must agree
     probes = [WG.to_nx(r) for r in WG.classes(3)[:30]] + list(WG.symmetric_families().values())[:6]
+    # molecules whose atoms order differently depending on which attribute is compared first (CH3 vs O-, NH3+ vs C)
+    from synkit.IO.chem_converter import smiles_to_graph
+    for smi in ("CC(=O)[O-]", "C[NH3+]", "[O-]C(=O)CC[NH3+]", "Oc1ccccc1", "C[N+](C)(C)CC([O-])=O", "[Na+].[O-]CC"):
+        probes.append(smiles_to_graph(smi, drop_non_aam=False, use_index_as_atom_map=True))
+    from synkit.Graph.syn_graph import SynGraph
     for i, G in enumerate(probes):
         for b in BACKENDS:
             ctx.xshard[f"sig/{b}/{i}"] = canon(b).canonical_signature(G)
+            try:
+                cg = canon(b).canonicalise_graph(G).canonical_graph
+                ctx.xshard[f"canon-graph/{b}/{i}"] = repr((sorted((n, sorted((k, repr(v)) for k, v in d.items() if k != "neighbors")) for n, d in cg.nodes(data=True)),
+                                                           sorted((min(u, v), max(u, v), sorted((k, repr(x)) for k, x in d.items())) for u, v, d in cg.edges(data=True))))
+            except Exception as e:
+                ctx.xshard[f"canon-graph/{b}/{i}"] = type(e).__name__
+        ctx.xshard[f"syngraph-sig/{i}"] = SynGraph(G, canon("nauty")).signature
+    ctx.count("cross_process_probes", len(probes))
     # symmetric families (shard 0..)
     for t, (name, G) in enumerate(WG.symmetric_families().items()):
         if ctx.mine(t):
